@@ -239,6 +239,13 @@ fn steered_ranges(rng: &mut Rng, entries: &[(u64, u64)], leaf_firsts: &[u64], n:
     for &f in leaf_firsts {
         pts.extend([f.wrapping_sub(1), f, f.wrapping_add(1)]);
     }
+    // bounds whose distance to a run start is a multiple of 2^32 (plus less than the run length)
+    for &(id, run) in entries.iter().take(12) {
+        for k in [1u64, 2, 1 << 31] {
+            pts.push(id.wrapping_add(k << 32));
+            pts.push(id.wrapping_add(k << 32).wrapping_add(run.saturating_sub(1)));
+        }
+    }
     let mk = |k: u64, v: u64| match k {
         0 => Bound::Included(v),
         1 => Bound::Excluded(v),
@@ -562,6 +569,14 @@ pub fn drive_reject(seed: u64, out: &mut Out) {
         bytes[97] = 0;
         out.emit(json!({"ev": "OpenReject", "hdr": bytes_json(&bytes[..127]), "meta_kind": "object", "obs": open_all(&bytes)}));
     }
+    // unknown internal compression, no tiles and no metadata: nothing needs to be decompressed, it must be refused all the same
+    for ic in 1u8..=4 {
+        let l = Layout { ic, order: [0, 1, 2, 3], gap: 0, root: vec![], meta: vec![], data: vec![], clustered: true,
+                         small: [1, 1, 0, 0, 0], coords: [0; 6], leaves_reversed: false };
+        let mut bytes = assemble(&l);
+        bytes[97] = 0;
+        out.emit(json!({"ev": "OpenReject", "hdr": bytes_json(&bytes[..127]), "meta_kind": "empty", "obs": open_all(&bytes)}));
+    }
     // unknown internal compression on write (sync and async values, with and without tiles)
     let mut em = Emitter::new();
     for api in [0u8, 1] {
@@ -686,7 +701,7 @@ fn writedirs_event(es: &[Entry], c: u8, start_size: Option<usize>, p0: u64, api:
 pub fn drive_writedirs(seed: u64, tier: &str, out: &mut Out) {
     let mut rng = Rng::new(seed ^ 0x5744);
     let mut ctx = Ctx::new();
-    let pool = irregular_entries(&mut rng, if tier == "thorough" { 40_000 } else { 9000 });
+    let pool = irregular_entries(&mut rng, if tier == "thorough" { 40_000 } else { 13_000 });
     // small lists, every codec, every start size
     for n in [0usize, 1, 2, 17, 300] {
         for c in 1u8..=4 {
@@ -724,6 +739,14 @@ pub fn drive_writedirs(seed: u64, tier: &str, out: &mut Out) {
                 }
                 out.emit(ev);
             }
+        }
+    }
+    // a single-root encoding just beyond 65536 bytes (a length that would fit again if it were truncated to 16 bits)
+    for c in (if tier == "thorough" { vec![1u8, 2, 4] } else { vec![1u8] }) {
+        let n = steer_n(&pool, comp_of(c), 65536 + 6000);
+        if n < pool.len() && single_root_len(&pool[..n], comp_of(c)) > 65536 {
+            out.emit(writedirs_event(&pool[..n], c, None, 0, if c == 1 { "sync" } else { "async" }));
+            ctx.bump("writedirs_single_root_length_beyond_65536");
         }
     }
     // tiny start sizes on long lists: the first root of leaf pointers is itself over budget, so the leaf size doubles
